@@ -221,9 +221,9 @@ def run(ck):
             jobs.append((exe, ["random", str(base + i), "6000"], have_driver))
         for i in range(32):
             jobs.append((exe, ["big", str(base + 100 + i), "8"], have_driver))
-        nsh = 256
+        nsh = 512
         for i in range(nsh):
-            jobs.append((exe, ["exh", str(i), str(nsh)], have_driver))
+            jobs.append((exe, ["exh", str(i), str(nsh), "12"], have_driver))
     results = vlib.pmap(job, jobs, workers=16)
     stats = {}
     modes = {}
@@ -275,7 +275,7 @@ def run(ck):
     ck.cov["rule"] = ("cases = (loader flags, len, lps, lpe, flg, smpctl/module, handle position, file bytes, NOLOAD buffer); generators: "
                       "random (all 12 flag bits, 8/16 bit, mono/stereo, len -3..64 and > MAX_SAMPLE_SIZE, loop points incl. inverted/"
                       "out-of-range/INT_MIN/INT_MAX, avail 0..need+9, NULL handle), big (len 65..70000), exh (every combination of the 10 "
-                      "effective flag bits x width x layout x len 0..9 x every avail 0..need+3 x rotating loop grid, plus the full loop grid "
+                      "effective flag bits x width x layout x len 0..9 x every avail 0..need+3 x rotating loop grid (3 points per combination in quick, 12 in thorough, of 252), plus the full loop grid "
                       "on 4 flag sets; quick runs a seed-chosen 16/4096 slice). distinct = hash of the case without its id; non-trivial = "
                       "the real code allocated PCM with len' > 0 and a conversion applied, the sample was truncated, or loop/flags changed")
     ck.assumptions += [
